@@ -167,7 +167,8 @@ def item_line(draw, kind="W", v12=False, mnem=None, times=True, descr_colons=Tru
         right = right + ": " + draw(field_text(allow_empty=False)) if draw(st.booleans()) else "a: b :c " + right
         right = right.strip()
     if kind == "C" or curve_safe:
-        left = left.replace("..", ".")
+        while ".." in left:  # a single pass would turn '...' into '..'
+            left = left.replace("..", ".")
         if u.startswith("."):
             u = "u" + u
     if sw:
